@@ -719,12 +719,25 @@ func matchFinding(fs []finding, prop, class, sig string) *finding {
 				ok = false
 			}
 		}
+		// a wrong answer that turned right when the same request was re-issued with fault injection
+		// switched off was caused by the injected fault, not by a recorded fault-free defect: only a
+		// finding that names this marker itself may claim it
+		if ok && strings.Contains(sig, faultChangedAnswer) {
+			ok = false
+			for _, sub := range f.SigAll {
+				if strings.Contains(sub, faultChangedAnswer) {
+					ok = true
+				}
+			}
+		}
 		if ok {
 			return f
 		}
 	}
 	return nil
 }
+
+const faultChangedAnswer = "fault_changed_answer"
 
 // ---------------------------------------------------------------- main flow
 
